@@ -484,7 +484,13 @@ func ResolveExternalLocation(
 		// Check for redirect loops
 		_, hasLocation := metaGet(recMeta, MetaLocation)
 		if hasLocation && rec.NumRows() == 0 {
+			if resolvedBatch != nil {
+				resolvedBatch.Release()
+			}
 			return batch, meta, fmt.Errorf("external location redirect loop detected")
+		}
+		if resolvedBatch != nil {
+			resolvedBatch.Release()
 		}
 		rec.Retain()
 		resolvedBatch = rec
@@ -583,9 +589,14 @@ func redactExternalURL(rawURL string) string {
 }
 
 // batchMetadata extracts custom metadata from a record batch.
+//
+// This is the per-batch custom metadata of the IPC message, not the
+// schema-level metadata: the log keys and vgi_rpc.location are written on the
+// individual batch, so the schema of the stream says nothing about whether a
+// given batch is a log or a pointer.
 func batchMetadata(rec arrow.RecordBatch) arrow.Metadata {
-	if rec.Schema().HasMetadata() {
-		return rec.Schema().Metadata()
+	if rb, ok := rec.(arrow.RecordBatchWithMetadata); ok {
+		return rb.Metadata()
 	}
 	return arrow.Metadata{}
 }
